@@ -225,6 +225,17 @@ async fn run_case(c: &CaseCfg, maxconn: usize, ops: &[String], out: &mut dyn Wri
                 conns.remove(it.next().unwrap());
                 "ok".into()
             }
+            "abort" => {
+                // reset the connection: close with SO_LINGER = 0
+                match conns.remove(it.next().unwrap()) {
+                    Some(s) => {
+                        let _ = s.set_linger(Some(Duration::from_secs(0)));
+                        drop(s);
+                        "ok".into()
+                    }
+                    None => "noconn".into(),
+                }
+            }
             "shutdown" => {
                 if let Some(tx) = srv.shutdown_tx.take() {
                     let _ = tx.send(());
